@@ -1,6 +1,7 @@
 /- Lemmas on the document-set model (analytics/document_set.go). -/
 import YtkModel.DocSet
 import YtkProofs.AMap
+import YtkProofs.Dom
 
 namespace Ytk.DocSet
 variable {δ : Type}
@@ -467,5 +468,57 @@ theorem genNames_nodup (s : State δ) (ops : List (Op δ)) : (genNames s ops).No
       omega
     | add n d o => simpa [genNames] using ih _
     | addFromReader n d o => simpa [genNames] using ih _
+
+/-! ## the overlay layer of a constructible document -/
+
+
+theorem insert_of_allLt {α : Type} {m : AMap α} {k : String} (a : α) (h : ∀ p ∈ m, p.1 < k) :
+    AMap.insert m k a = m ++ [(k, a)] := by
+  induction m with
+  | nil => rfl
+  | cons q rest ih =>
+    obtain ⟨k', v'⟩ := q
+    have hlt : k' < k := h (k', v') (List.mem_cons_self ..)
+    simp only [AMap.insert, if_neg (String.lt_asymm hlt), if_neg (String.ne_of_lt hlt).symm, List.cons_append]
+    rw [ih (fun p hp => h p (List.mem_cons_of_mem _ hp))]
+
+theorem foldl_add_sorted (acc kvs : AMap Node) (hs : AMap.Sorted (acc ++ kvs))
+    (hk : ∀ p ∈ kvs, hasIdxSuffix p.1 = false) :
+    kvs.foldl (fun acc p => add acc p.1 p.2) acc = acc ++ kvs := by
+  induction kvs generalizing acc with
+  | nil => simp
+  | cons q rest ih =>
+    obtain ⟨k, v⟩ := q
+    simp only [List.foldl_cons]
+    rw [add_of_noSuffix _ _ (hk (k, v) (List.mem_cons_self ..))]
+    have hlt : ∀ p ∈ acc, p.1 < k := by
+      intro p hp
+      clear ih hk
+      induction acc with
+      | nil => cases hp
+      | cons a acc iha =>
+        obtain ⟨ka, va⟩ := a
+        rcases List.mem_cons.mp hp with rfl | hp
+        · exact hs.head_lt (k, v) (by simp)
+        · exact iha hs.tail hp
+    rw [insert_of_allLt _ hlt]
+    have : acc ++ [(k, v)] ++ rest = acc ++ (k, v) :: rest := by simp
+    rw [ih (acc ++ [(k, v)]) (this ▸ hs) (fun p hp => hk p (List.mem_cons_of_mem _ hp)), this]
+
+/-- overlayDocument.Add into a fresh layer copies a constructible document exactly -/
+theorem overlayLayer_id {n : Node} (h : n.Valid) : overlayLayer n = n := by
+  cases n with
+  | leaf v => rfl
+  | list xs => rfl
+  | cont kvs =>
+    obtain ⟨hwf, hko⟩ := h
+    have hs := hwf.sorted
+    have hk : ∀ p ∈ kvs, hasIdxSuffix p.1 = false := by
+      cases hko with
+      | cont h1 _ => exact h1
+    simp only [overlayLayer]
+    rw [foldl_add_sorted [] kvs (by simpa using hs) hk]
+    rfl
+
 
 end Ytk.DocSet
